@@ -289,6 +289,8 @@ def compare(st: State, op: ast.cmpop, a: Any, b: Any):
             r = smt.first(s, p) >= 0
         elif smt.is_int(a) and is_byteslike(b):
             r = smt.first(as_bytes(st, b), z3.Unit(a)) >= 0  # an element occurs iff the one-byte string does
+        elif is_z3(b) and b.sort() == smt.Obj:
+            r = smt.fresh("member", smt.Bo)  # membership in an opaque container: unknown
         elif isinstance(b, tuple):
             r = z3.Or(*[values_equal(st, a, x) for x in b]) if b else z3.BoolVal(False)
         else:
